@@ -237,8 +237,8 @@ def coreCls (tb : Tables) (rec : Ty → Ty → Bool) : Cls → Cls → Bool
   | .funcAny, .funcAny => true                              -- l.113 st2.startswith('function(')
   | .funcAny, .func _ _ => true
   | .funcAny, _ => false
-  | .func a1 r1, .func a2 r2 =>                             -- l.116-127; '' never is a restriction (l.53)
-      !a1.isNil && !a2.isNil && Tys.all2 rec a2 a1 && rec r1 r2
+  | .func a1 r1, .func a2 r2 =>                             -- l.116-126: split_function_test splits by nesting depth
+      Tys.all2 rec a2 a1 && rec r1 r2                       -- same number of parameters, contravariant; return covariant
   | _, _ => false                                           -- l.110 / garbage split of a non-function text
 
 /-- the occurrence indicator of the type itself: a typed function test has none (its last character
@@ -743,26 +743,34 @@ def hPool (tb : Tables) (xsd11 : Bool) : List (List Item) → List HOp → List 
 
 /-! ## the text of a type and the string-level splitting of a typed function test
 
-`is_sequence_type_restriction` (l.116-119) and `helpers.split_function_test` do not parse: they cut the normalised
-text with `st[9:].partition(') as ')` and `.split(', ')`.  The text is modelled as a list of tokens in which the
-two separators the code looks for are tokens of their own; every other token is a `piece` of text that contains
-neither (names, `function(`, `map(xs:string`, `)`, `)*`, `item()?` …).  The driver prints `Ty.text`, the harness
-compares it with the real normalised string and compares `pySplit` with the real `split_function_test`. -/
+`is_sequence_type_restriction` (l.113-126) and `match_function_test` do not parse: they cut the normalised text of a
+function test with `helpers.split_function_test`, which scans the characters after `function(` and splits at `', '`
+and at the closing `) as ` where the nesting depth of parentheses is zero.  The text is modelled as a list of tokens:
+`opn s` is a piece of text that opens one parenthesis more than it closes (`function(`, `map(xs:string`, `array(`,
+`element(n1`), `cls s` one that closes one (`)`, `)*`, `xs:untyped)`), `atom s` a balanced piece (`item()?`, `xs:int`,
+`element(n1)`), `comma` is `', '`, `closeAs` is `') as '` (it closes the parenthesis of `function(`).  The driver
+prints `Ty.text` and `pySplit`; the harness compares them with the real normalised string and the real
+`split_function_test`. -/
 
 inductive Tok
-  | piece (s : String)
+  | atom (s : String)
+  | opn (s : String)
+  | cls (s : String)
   | comma            -- ', '
   | closeAs          -- ') as '
   deriving DecidableEq, Repr
 
 def Tok.text : Tok → String
-  | .piece s => s
+  | .atom s => s
+  | .opn s => s
+  | .cls s => s
   | .comma => ", "
   | .closeAs => ") as "
 
 def Tok.isSep : Tok → Bool
-  | .piece _ => false
-  | _ => true
+  | .comma => true
+  | .closeAs => true
+  | _ => false
 
 def Occ.text : Occ → String
   | .one => "" | .opt => "?" | .star => "*" | .plus => "+"
@@ -775,10 +783,10 @@ def Kind.str : Kind → String
   | .document => "document-node" | .element => "element" | .attribute => "attribute" | .text => "text"
   | .comment => "comment" | .pi => "processing-instruction" | .namespace => "namespace-node"
 
-/-- the text of a leaf item type; `nm` / `ln` give the names of the atomic / list types of the generated tables -/
 def TyArg.text (nm : Nat → String) : TyArg → String
   | .untyped => "xs:untyped" | .anyType => "xs:anyType" | .anySimpleType => "xs:anySimpleType" | .atomic t => nm t
 
+/-- the text of a leaf item type; `nm` / `ln` give the names of the atomic / list types of the generated tables -/
 def Leaf.text (nm ln : Nat → String) : Leaf → String
   | .item => "item()" | .anyNode => "node()" | .atomic a => nm a | .numeric => "xs:numeric" | .listT l => ln l
   | .anyType => "xs:anyType" | .anySimpleType => "xs:anySimpleType"
@@ -790,13 +798,13 @@ def Leaf.text (nm ln : Nat → String) : Leaf → String
 mutual
 /-- the normalised text of a type as tokens -/
 def Ty.render (nm ln : Nat → String) : Ty → List Tok
-  | .empty => [.piece "empty-sequence()"]
+  | .empty => [.atom "empty-sequence()"]
   | .leaf (.kindT k nt ta opt) o =>
-    [.piece (k.str ++ "(" ++ nt.text), .comma, .piece (ta.text nm ++ (if opt then "?" else "") ++ ")" ++ o.text)]
-  | .leaf l o => [.piece (l.text nm ln ++ o.text)]
-  | .func a r => .piece "function(" :: (a.renderArgs nm ln ++ (.closeAs :: r.render nm ln))
-  | .map k v o => .piece ("map(" ++ nm k) :: .comma :: (v.render nm ln ++ [.piece (")" ++ o.text)])
-  | .array m o => .piece "array(" :: (m.render nm ln ++ [.piece (")" ++ o.text)])
+    [.opn (k.str ++ "(" ++ nt.text), .comma, .cls (ta.text nm ++ (if opt then "?" else "") ++ ")" ++ o.text)]
+  | .leaf l o => [.atom (l.text nm ln ++ o.text)]
+  | .func a r => .opn "function(" :: (a.renderArgs nm ln ++ (.closeAs :: r.render nm ln))
+  | .map k v o => .opn ("map(" ++ nm k) :: .comma :: (v.render nm ln ++ [.cls (")" ++ o.text)])
+  | .array m o => .opn "array(" :: (m.render nm ln ++ [.cls (")" ++ o.text)])
 /-- the arguments joined with `', '` -/
 def Tys.renderArgs (nm ln : Nat → String) : Tys → List Tok
   | .nil => []
@@ -807,29 +815,25 @@ end
 
 def Ty.text (nm ln : Nat → String) (t : Ty) : String := String.join ((t.render nm ln).map Tok.text)
 
-/-- `s.partition(') as ')`: the text before the first `') as '` and the text after it -/
-def partitionCloseAs : List Tok → List Tok × List Tok
-  | [] => ([], [])
-  | .closeAs :: r => ([], r)
-  | t :: r => (t :: (partitionCloseAs r).1, (partitionCloseAs r).2)
+/-- the scan of `helpers.split_function_test` over the text after `function(`: `depth` = nesting depth, `cur` = the
+text of the current parameter, result = (parameter texts, text of the return type).  A `', '` or the `) as ` of the
+function test itself is recognised at depth 0 only. -/
+def splitScan : Nat → List Tok → List Tok → List (List Tok) × List Tok
+  | _, [], cur => ([cur], [])                                   -- no closing parenthesis: not a function test
+  | 0, .closeAs :: r, cur => (if cur.isEmpty then [] else [cur], r)   -- `if k > start: append`; the rest is the return type
+  | 0, .comma :: r, cur => (cur :: (splitScan 0 r []).1, (splitScan 0 r []).2)
+  | d, .opn s :: r, cur => splitScan (d + 1) r (cur ++ [.opn s])
+  | d + 1, .cls s :: r, cur => splitScan d r (cur ++ [.cls s])
+  | d + 1, .closeAs :: r, cur => splitScan d r (cur ++ [.closeAs])
+  | d, t :: r, cur => splitScan d r (cur ++ [t])
 
-/-- `s.split(', ')` -/
-def splitComma : List Tok → List (List Tok)
-  | [] => [[]]
-  | .comma :: r => [] :: splitComma r
-  | t :: r => match splitComma r with
-    | p :: ps => (t :: p) :: ps
-    | [] => [[t]]
+/-- `split_function_test(st)` for the text of a typed function test: parameter texts and return type text -/
+def pySplit (st : List Tok) : List (List Tok) × List Tok := splitScan 0 st.tail []
 
-/-- what l.116-119 extract from the text of a typed function test: `st[9:].partition(') as ')`, then
-`.split(', ')` of the first part -/
-def pySplit (st : List Tok) : List (List Tok) × List Tok :=
-  (splitComma (partitionCloseAs st.tail).1, (partitionCloseAs st.tail).2)
-
-/-- what the AST says the pieces are (`''.split(', ')` is `['']`) -/
+/-- what the AST says the pieces are -/
 def Tys.argTexts (nm ln : Nat → String) : Tys → List (List Tok)
-  | .nil => [[]]
-  | .cons a as => a.render nm ln :: (match as with | .nil => [] | .cons _ _ => as.argTexts nm ln)
+  | .nil => []
+  | .cons a as => a.render nm ln :: as.argTexts nm ln
 
 /-! ## decidable regions: where the AST reading and the string-driven code agree by construction,
 the domain of the specification, and the trigger predicates of the known findings -/
